@@ -50,8 +50,7 @@ ENTRY = {'title': 'Payload decoding conforms to the ecoNET wire layout for every
              'NATURAL offset (negative offsets not covered), every instance and every data argument that is None or a string-keyed dict — masks shifted once '
              'per slot (connected or not), index = position, 9 bytes per slot, error classes; instance attributes after a successful call only':
                  'theorem (TieStructSections.thermostat_sensors_decode_model, thermostats_rest; TieStructSensors.unpack_thermostat_eq, thermostat_fold, '
-                 'thermostat_sensors_decode_eq, entriesP_model, decThermostats_shape) + translator validation (harness/pycode.py group sensors; the sections '
-                 'that are translated but not yet tied by a theorem: none of the sensor sections in the translator\'s target list)',
+                 'thermostat_sensors_decode_eq, entriesP_model, decThermostats_shape) + translator validation (harness/pycode.py group sensors)',
              'code tie of the parameter blocks (round 8): the SOURCE TEXT of EcomaxParametersStructure / MixerParametersStructure / '
              'ThermostatParametersStructure (.decode and their generators) and utils.ensure_dict, translated on every run, equals P2.decodeEcomax '
              '/ decodeMixer / decodeThermo for every message, every NATURAL offset (negative offsets not covered), every instance and every data argument '
